@@ -2,6 +2,18 @@ INIT Init
 NEXT Next
 CONSTANTS
   MaxFragments = 4
+  FnScopes = {"def", "async"}
+  MaxDepth = 3
+  PosMaxLines = 4
+  NodesHavePos = TRUE
+  DevOn = {"fwd", "byte", "split"}
+  YSites = {"oneline"}
+  YPads = {"none"}
+  YBefore = {0}
+  YAfter = {0}
+  YFillers = {"plain"}
+  YNewlines = {"lf"}
+  YTrail = {TRUE}
 INVARIANT TypeOK
 INVARIANT EmitDone
 CHECK_DEADLOCK FALSE
